@@ -81,6 +81,7 @@ class WavPackInfo(StreamInfo):
         version (int): WavPack stream version
     """
 
+    @convert_error(IOError, WavPackHeaderError)
     def __init__(self, fileobj):
         try:
             header = _WavPackHeader.from_fileobj(fileobj)
